@@ -6,7 +6,7 @@ from fractions import Fraction
 import numpy as np
 from common import *
 
-IMPORTS = "From CV Require Import Base.Cmp Model.C19_Stats Model.C19_History.\nFrom Coq Require Import QArith String. Open Scope string_scope."
+IMPORTS = "From CV Require Import Base.Cmp Model.C19_Stats Model.C19_Rhat Model.C19_History.\nFrom Coq Require Import QArith String. Open Scope string_scope."
 RULE = ("integer sample arrays (1-3 function axes, Ns<=9 quick/<=13 thorough), every (Nb,Nt) incl. Nb>=Ns, Nt=0, Nt>Ns; "
         "chained burnthin; JointSamples; per-coordinate mean/var/median/std/CI at 9 credibility levels; funvals statistics via a "
         "mapped geometry; arviz dictionaries; HISTORIES: sequences of 10-16 operations (every statistic, compute_ci/ci_width, arviz/ESS/R-hat "
@@ -16,6 +16,26 @@ RULE = ("integer sample arrays (1-3 function axes, Ns<=9 quick/<=13 thorough), e
         "object are compared with the model's state and bit-for-bit with their bytes at creation, repeated operations must repeat "
         "their first result. distinct = distinct (array, operation, arguments); trivial = Ns==1 statistics and "
         "(Nb,Nt)=(0,1) burnthin")
+
+
+BIG_M, BIG_A, BIG_C = 1000003, 48271, 12345
+HASH_P, HASH_M = 1000003, (1 << 61) - 1
+
+
+def big_chain(seed, n):
+    """x_0 = seed mod M, x_{i+1} = (A x_i + C) mod M; draw i = x_i - M/2 (the same formula is evaluated in Coq)"""
+    out, x = [], seed % BIG_M
+    for _ in range(n):
+        out.append(x - BIG_M // 2)
+        x = (BIG_A * x + BIG_C) % BIG_M
+    return out
+
+
+def zhash(vals):
+    h = 0
+    for v in vals:
+        h = (h * HASH_P + v) % HASH_M
+    return h
 
 
 def flat_samples(arr):
@@ -74,7 +94,10 @@ def mk_geom(cuqi, kind, dim):
 # =====================================================================================================
 # HISTORIES: operation sequences on a set of live objects that share storage
 # =====================================================================================================
-HGEOMS = ["default", "cont1d", "named", "mapped1d", "image2d", "mapped2d"]
+HGEOMS = ["default", "cont1d", "named", "mapped1d", "image2d", "mapped2d", "cont2d"]
+TWO_D = ("image2d", "mapped2d", "cont2d")
+ARVIZ_PLOTS = ["plot_trace", "plot_pair", "plot_autocorrelation", "plot_violin"]
+RHAT_METHODS = [None, "split", "identity"]
 LAYOUTS = ["C", "F", "strided", "rev", "samplefirst"]
 STAT_OPS = ["mean", "median", "variance", "std"]
 QUIET = ["plot_mean", "plot_median", "plot_variance", "plot_std", "plot_ci_width", "plot_ci", "plot", "plot_chain",
@@ -82,6 +105,47 @@ QUIET = ["plot_mean", "plot_median", "plot_variance", "plot_std", "plot_ci_width
 H_PERCENTS = [95, 50, 90, 99, 80, 0, 100, 12.5, 37]
 MAX_LIVE = 7
 RHAT_SIG = "Samples.compute_rhat|geometry-eq:lazily-cached-attribute"
+RHAT_LEN_SIG = "Samples.compute_rhat|unequal-draws:one-draw-chain-broadcast"
+KNOWN_SIGS = (RHAT_SIG, RHAT_LEN_SIG)
+_PROBE = {}
+
+
+def probe_rhat_bcast():
+    """repair state of compute_rhat: does it accept a chain with ONE draw (numpy broadcasts it over all draws)?"""
+    if "bcast" not in _PROBE:
+        import logging, warnings
+        from cuqi.samples import Samples
+        a = Samples(np.array([[1., 5, 2, 8, 3, 9]]))
+        b = Samples(np.array([[4.]]))
+        logging.disable(logging.WARNING)
+        try:
+            with warnings.catch_warnings():
+                warnings.simplefilter("ignore")
+                try:
+                    a.compute_rhat(b)
+                    _PROBE["bcast"] = True
+                except Exception:
+                    _PROBE["bcast"] = False
+        finally:
+            logging.disable(logging.NOTSET)
+    return _PROBE["bcast"]
+
+
+def o_rhat_sq(chains, method):
+    """Rhat^2 from the documented formula (independent of arviz): None = nan / undefined"""
+    n = len(chains[0])
+    if n < 4 or len(chains) < 2:
+        return None
+    if method == "split":
+        half = n // 2
+        chains = [c[:half] for c in chains] + [c[len(c) - half:] for c in chains]
+        n = half
+    mean = lambda xs: Fraction(sum(xs)) / len(xs)
+    var1 = lambda xs: sum((x - mean(xs)) ** 2 for x in xs) / (len(xs) - 1)
+    W = mean([var1(c) for c in chains])
+    if W == 0:
+        return None
+    return (n * var1([mean(c) for c in chains]) / W + n - 1) / n
 
 
 def build_array(vals, dtype, layout):
@@ -128,6 +192,8 @@ def h_geometry(cuqi, m):
         G = cuqi.geometry.Image2D(tuple(m["im_shape"]))
     elif kind == "mapped2d":
         G = cuqi.geometry.MappedGeometry(cuqi.geometry.Image2D(tuple(m["im_shape"])), map=fmap, imap=imap)
+    elif kind == "cont2d":
+        G = cuqi.geometry.Continuous2D(grid=(np.arange(m["im_shape"][0]), np.arange(m["im_shape"][1])))
     else:
         raise ValueError(kind)
     return G
@@ -139,12 +205,21 @@ def h_names(m):
     return ["v%d" % k for k in range(m["dim"])] if m["dim"] != 1 else ["v"]
 
 
+def dict_of(kv):
+    """Python dict(zip(...)) semantics as an ordered list"""
+    d = {}
+    for k, v in kv:
+        d[k] = v
+    return list(d.items())
+
+
 # ---- pure-Python statement of what every operation means (the oracle; also drives the generator) ------------
 def sim_value(m, op, objs):
     """objs: list of {"chain": [[int]], "par": bool, "vec": bool}.  Returns (kind, payload, created objects)."""
     name = op[0]
     a, b = m["a"], m["b"]
-    fun2d = m["geom"] in ("image2d", "mapped2d")
+    fun2d = m["geom"] in TWO_D
+    novec = m["geom"] == "cont2d"
     names = h_names(m)
     x = objs[op[1]] if name != "joint" else None
     col = lambda o, k: [s[k] for s in o["chain"]]
@@ -158,28 +233,40 @@ def sim_value(m, op, objs):
         hi = [o_percentile(col(x, k), 100 - (100 - pf) / 2) for k in range(dim(x))]
         return ("ci", (lo, hi), []) if name == "ci" else ("stat", [h - l for h, l in zip(hi, lo)], [])
     if name in ("arviz", "ess"):
+        sel = op[2] if name == "arviz" else None
+        via = op[3] if name == "arviz" else None
         if not x["vec"]:
             return ("refused", None, [])
-        return ("dict", list(zip(names, [col(x, k) for k in range(dim(x))])), [])
+        if (via is not None or sel is None) and novec and not x["par"]:
+            return ("refused", None, [])          # the geometry has no vector form: _geometry_dim raises
+        ks = list(range(dim(x))) if sel is None else sel
+        return ("dict", dict_of([(names[k], col(x, k)) for k in ks]), [])
     if name == "rhat":
-        y = objs[op[2]]
-        if not (x["vec"] and y["vec"] and len(x["chain"]) == len(y["chain"])):
-            return ("refused", None, [])
-        return ("dict2", list(zip(names, [[col(x, k), col(y, k)] for k in range(dim(x))])), [])
+        ys = [objs[j] for j in op[2]]
+        if not x["vec"] or (novec and not x["par"]) or not all(y["vec"] and len(y["chain"]) == len(x["chain"]) for y in ys):
+            return ("refused", None, [])          # R-hat needs (variables, draws) arrays with equal numbers of draws
+        per = [[col(x, k)] + [col(y, k) for y in ys] for k in range(dim(x))]
+        return ("rhat", (list(zip(names, per)), [o_rhat_sq(c, op[3]) for c in per] if op[3] else None), [])
     if name == "funvals":
         if not x["par"] and not x["vec"]:
             return ("self", None, [])
+        if not x["par"] and novec:
+            return ("refused", None, [])
         ch = [[a * v + b for v in s] for s in x["chain"]] if x["par"] else [list(s) for s in x["chain"]]
         n = {"chain": ch, "par": False, "vec": not fun2d}
         return ("obj", n, [n])
     if name == "vector":
         if x["vec"] or x["par"]:
             return ("self", None, [])
+        if novec:
+            return ("refused", None, [])
         n = {"chain": [list(s) for s in x["chain"]], "par": x["par"], "vec": True}
         return ("obj", n, [n])
     if name == "parameters":
         if x["par"]:
             return ("self", None, [])
+        if x["vec"] and novec:
+            return ("refused", None, [])
         n = {"chain": [[a * (v - b) for v in s] for s in x["chain"]], "par": True, "vec": True}
         return ("obj", n, [n])
     if name == "burnthin":
@@ -206,7 +293,7 @@ def gen_history(rng, h, n_ops, long_chain=False, plots=False):
     kind = HGEOMS[h % len(HGEOMS)]
     layout = LAYOUTS[(h // len(HGEOMS)) % len(LAYOUTS)]
     dtype = ["int64", "float64"][(h // (len(HGEOMS) * len(LAYOUTS))) % 2]
-    two_d = kind in ("image2d", "mapped2d")
+    two_d = kind in TWO_D
     if long_chain:
         kind = ["default", "cont1d"][h % 2]
         two_d = False
@@ -214,7 +301,7 @@ def gen_history(rng, h, n_ops, long_chain=False, plots=False):
         dtype = ["float64", "int64"][(h // 2) % 2]
     rootkind = ["par", "fun", "vec"][(h // 2) % 3] if two_d else ["par", "par", "vec"][(h // 7) % 3]
     if two_d:
-        im_shape = rng.choice([(2, 2), (1, 3), (3, 1), (2, 1)])
+        im_shape = rng.choice([(2, 2), (1, 3), (3, 1), (2, 1)]) if kind != "cont2d" else rng.choice([(2, 2), (2, 3), (3, 2)])
         dim = im_shape[0] * im_shape[1]
     else:
         im_shape, dim = None, rng.randint(1, 3)
@@ -254,27 +341,40 @@ def gen_history(rng, h, n_ops, long_chain=False, plots=False):
                 op = [nm, pick()]
             elif u < 0.52:
                 op = [rng.choice(["ci", "ci_width"]), pick(), rng.choice(H_PERCENTS)]
-            elif u < 0.62:
-                nm = rng.choice(["arviz", "ess", "rhat"])
+            elif u < 0.66:
+                nm = rng.choice(["arviz", "arviz", "ess", "rhat", "rhat"])
                 i = pick()
                 if nm == "rhat":
-                    same = [j for j in range(len(objs)) if len(objs[j]["chain"]) == len(objs[i]["chain"])
-                            and (objs[j]["vec"] and objs[i]["vec"])]
-                    nonvec = [j for j in range(len(objs)) if not objs[j]["vec"]]
-                    if same and (not nonvec or rng.random() < 0.8):
-                        op = ["rhat", i, rng.choice(same)]
-                    elif nonvec and not objs[i]["vec"]:
-                        op = ["rhat", i, rng.choice(nonvec)]
+                    vecs = [j for j in range(len(objs)) if objs[j]["vec"]]
+                    same = [j for j in vecs if len(objs[j]["chain"]) == len(objs[i]["chain"])]
+                    meth = rng.choice(RHAT_METHODS)
+                    if not objs[i]["vec"]:
+                        op = ["rhat", i, [pick()], meth]                       # self is not (variables, draws): refused
+                    elif rng.random() < 0.2 and len(vecs) > len(same):
+                        # unequal numbers of draws (incl. a single draw, which numpy would broadcast)
+                        op = ["rhat", i, [rng.choice([j for j in vecs if j not in same])], meth]
+                    elif same:
+                        op = ["rhat", i, [rng.choice(same) for _ in range(rng.choice([1, 1, 2, 3]))], meth]
                     else:
                         op = ["ess", i]
+                elif nm == "arviz":
+                    d = len(objs[i]["chain"][0])
+                    r = rng.random()
+                    sel = None if r < 0.4 else (sorted(rng.sample(range(d), rng.randint(1, d))) if r < 0.7 else
+                                                [rng.randrange(d) for _ in range(rng.randint(1, d + 1))])   # unsorted, repeats
+                    via = None if rng.random() < 0.5 else ARVIZ_PLOTS[(h + len(ops)) % 4]
+                    if via is not None and sel is None and d > 5:
+                        sel = list(range(d))                                          # plot paths pick 5 at random otherwise
+                    op = ["arviz", i, sel, via]
                 else:
                     op = [nm, i]
-            elif u < 0.74:
+            elif u < 0.77:
                 op = [rng.choice(["funvals", "vector", "parameters"]), pick()]
             elif u < 0.92:
                 i = pick()
                 n = len(objs[i]["chain"])
-                nb = rng.randint(0, max(0, n - 2)) if rng.random() < 0.9 else rng.randint(n - 1, n + 1)
+                r = rng.random()
+                nb = rng.randint(0, max(0, n - 2)) if r < 0.8 else (n - 1 if r < 0.9 else rng.randint(n - 1, n + 1))
                 nt = rng.randint(1, 3) if rng.random() < 0.93 else 0
                 op = ["burnthin", i, nb, nt]
             elif m["joint"] and u < 0.96:
@@ -334,6 +434,7 @@ def _run_history(cuqi, m):
     from cuqi.geometry import _DefaultGeometry1D
     G = h_geometry(cuqi, m)
     names = h_names(m)
+    bcast = probe_rhat_bcast()
     live = []          # implementation side
     objs = []          # oracle side (pure Python)
     owners = []        # (array, bytes at creation, description)
@@ -410,7 +511,7 @@ def _run_history(cuqi, m):
     for step, op in enumerate(m["ops"]):
         name = op[0]
         key = json.dumps(op)
-        label = op[2] if name == "quiet" else name            # call site named in messages / signatures
+        label = op[2] if name == "quiet" else (op[3] if name == "arviz" and op[3] else name)   # call site named in messages / signatures
         exp_kind, exp_val, exp_created = sim_value(m, op, objs)
         geq, geq_exc = True, None
         obs = None          # (kind, payload) as observed
@@ -447,10 +548,24 @@ def _run_history(cuqi, m):
                     raw = np.array(r)
                     obs = ("stat", fl(r))
                 elif name == "arviz":
+                    sel, via = op[2], op[3]
+                    vi = None if sel is None else np.array(sel)
                     try:
-                        d = S.to_arviz_inferencedata()
+                        if via is None:
+                            d = S.to_arviz_inferencedata(vi)
+                        else:                                   # the arviz plot functions only pass the dictionary on
+                            seen = {}
+                            hook = {"plot_autocorrelation": "plot_autocorr"}.get(via, via)
+                            realp = getattr(arviz, hook)
+                            setattr(arviz, hook, lambda dd, **kw: seen.setdefault("d", dd))
+                            try:
+                                getattr(S, via)(vi, **({"tight_layout": False} if via == "plot_trace" else {}))
+                            finally:
+                                setattr(arviz, hook, realp)
+                                plt.close("all")
+                            d = seen["d"]
                         obs = ("dict", [(str(k), int_row(v)) for k, v in d.items()])
-                    except ValueError:
+                    except (ValueError, NotImplementedError):
                         obs = ("refused", None)
                 elif name == "ess":
                     seen = {}
@@ -467,7 +582,7 @@ def _run_history(cuqi, m):
                         raw = None
                     finally:
                         arviz.ess = real
-                    obs = ("dict", seen["d"]) if "d" in seen else ("refused", None)
+                    obs = ("dict", seen["d"]) if ("d" in seen and raw is not None) else ("refused", None)
                     if raw is not None and exp_kind == "dict":
                         # the numbers: ESS of every pristine chain, computed on a fresh array
                         if op[1] not in ess_ref:
@@ -479,29 +594,53 @@ def _run_history(cuqi, m):
                                 break
                 elif name == "rhat":
                     seen = {}
-                    O = live[op[2]]["obj"]
+                    others = [live[j]["obj"] for j in op[2]]
+                    meth = op[3]
+                    kw_m = {"method": meth} if meth else {}
                     try:                      # the answer of cuqi.geometry's comparison: an input of the model (see ORhat)
-                        geq = not (S.geometry != O.geometry)
+                        geq = all(not (S.geometry != O.geometry) for O in others)
                     except Exception as e:
                         geq = False
                         geq_exc = repr(e)
                     real = arviz.rhat
                     def fake(dd, **kw):
-                        seen["d"] = [(str(k), [int_row(c) for c in np.asarray(v)]) for k, v in dd.items()]   # [chain of self, chain of other]
+                        seen["d"] = [(str(k), [int_row(c) for c in np.asarray(v)]) for k, v in dd.items()]   # [chain of self, chains of the others]
+                        seen["kw"] = dict(kw)
                         return real(dd, **kw)
                     arviz.rhat = fake
                     try:
                         with warnings.catch_warnings():
                             warnings.simplefilter("ignore")
-                            raw = np.array(S.compute_rhat(live[op[2]]["obj"]))
+                            raw = np.array(S.compute_rhat(others[0] if (len(others) == 1 and step % 2 == 0) else others, **kw_m), dtype=float)
                     except Exception:
                         raw = None
                     finally:
                         arviz.rhat = real
-                    obs = ("dict2", seen["d"]) if "d" in seen else ("refused", None)
+                    if raw is None or "d" not in seen:
+                        obs = ("refused", None)
+                    else:
+                        nums = None
+                        if meth:
+                            nums = [None if not math.isfinite(t) else frac(t) ** 2 for t in raw.ravel()]
+                        obs = ("rhat", (seen["d"], nums))
+                        if seen["kw"] != kw_m:
+                            problems.append((step, name, "compute_rhat(%s) passed %s on to arviz.rhat" % (kw_m, seen["kw"])))
+                        # the numbers against arviz on fresh copies of the chains as stored at creation (every method)
+                        if exp_kind == "rhat":
+                            for k, (nm_, per) in enumerate(exp_val[0]):
+                                ref = float(real({"v": np.array(per, dtype=float)}, **kw_m)["v"].values)
+                                got = float(raw.ravel()[k])
+                                if not ((np.isnan(ref) and np.isnan(got)) or got == ref or abs(got - ref) <= 1e-9 * (1 + abs(ref))):
+                                    problems.append((step, name, "compute_rhat(%s)[%d]=%r is not arviz's value %r for the chains as stored at creation" % (kw_m, k, got, ref)))
+                                    break
                 elif name in ("funvals", "vector", "parameters"):
-                    R = getattr(S, name)
-                    if R is S:
+                    try:
+                        R = getattr(S, name)
+                    except NotImplementedError:            # the geometry has no vec2fun / fun2vec
+                        R = None
+                    if R is None:
+                        obs = ("refused", None)
+                    elif R is S:
                         obs = ("self", None)
                     else:
                         new_objs = [R]
@@ -557,21 +696,32 @@ def _run_history(cuqi, m):
                 okv = len(obs[1]) == len(exp_val) and all(close(g_, e) for g_, e in zip(obs[1], exp_val))
             elif exp_kind == "ci":
                 okv = all(len(o_) == len(e_) and all(close(g_, e) for g_, e in zip(o_, e_)) for o_, e_ in zip(obs[1], exp_val))
-            elif exp_kind in ("dict", "dict2"):
+            elif exp_kind == "dict":
                 okv = [(k, v) for k, v in obs[1]] == [(k, v) for k, v in exp_val]
+            elif exp_kind == "rhat":
+                okv = [(k, v) for k, v in obs[1][0]] == [(k, v) for k, v in exp_val[0]]
+                if okv and exp_val[1] is not None:
+                    okv = obs[1][1] is not None and len(obs[1][1]) == len(exp_val[1]) and all(
+                        (g_ is None and e is None) or (g_ is not None and e is not None and close(g_, e)) for g_, e in zip(obs[1][1], exp_val[1]))
             elif exp_kind == "obj":
                 okv = same_obj(obs[1], exp_val)
             elif exp_kind == "objs":
                 okv = len(obs[1]) == len(exp_val) and all(same_obj(d, e) for d, e in zip(obs[1], exp_val))
-        if not okv and name == "rhat" and exp_kind == "dict2" and obs[0] == "refused" and not geq:
+        if not okv and name == "rhat" and exp_kind == "refused" and obs[0] == "rhat" and bcast and \
+                any(len(objs[j]["chain"]) == 1 != len(objs[op[1]]["chain"]) for j in op[2]):
+            problems.append((step, RHAT_LEN_SIG, "%s: live object %s has ONE draw, live object %d has %d: compute_rhat hands arviz the single draw "
+                             "repeated %d times (%s) instead of refusing chains of unequal length"
+                             % (op, op[2], op[1], len(objs[op[1]]["chain"]), len(objs[op[1]]["chain"]), obs[1][0])))
+        elif not okv and name == "rhat" and exp_kind == "rhat" and obs[0] == "refused" and not geq:
             # all objects of a history have the same geometry (one object, or default geometries of one size): R-hat must be
             # computed; the geometry comparison said otherwise (known class: lazily cached attributes, see known_findings.tsv)
             problems.append((step, RHAT_SIG, "%s: compute_rhat of live object %d with live object %d is refused because the comparison "
                              "of their (equal) geometries %s, depending on which of to_arviz_inferencedata / compute_ess / compute_rhat "
                              "ran before (they cache _funvec_shape on one geometry object)"
-                             % (op, op[1], op[2], ("raised " + geq_exc) if geq_exc else "answered 'different'")))
+                             % (op, op[1], op[2][0], ("raised " + geq_exc) if geq_exc else "answered 'different'")))
         elif not okv:
-            show = lambda kv: (kv[0], [float(t) for t in kv[1]] if kv[0] == "stat" else kv[1])
+            show = lambda kv: (kv[0], [float(t) for t in kv[1]] if kv[0] == "stat" else
+                               ((kv[1][0], None if kv[1][1] is None else [None if t is None else float(t) for t in kv[1][1]]) if kv[0] == "rhat" else kv[1]))
             problems.append((step, name, "%s on live object %s returned %s; from the chain as stored at creation: %s"
                              % (op, op[1], show(obs), show((exp_kind, exp_val)))))
         # ---- repeated operation repeats its first result bit for bit ----
@@ -602,12 +752,12 @@ def _run_history(cuqi, m):
             break
     fail, fail_op = None, None
     if problems:
-        problems.sort(key=lambda p: (p[1] == RHAT_SIG, p[0]))         # anything else first: a known class never hides another failure
+        problems.sort(key=lambda p: (p[1] in KNOWN_SIGS, p[0]))         # anything else first: a known class never hides another failure
         fail_op = problems[0][1]
         fail = "history (%s, %s, %s, roots=%s): " % (m["geom"], m["layout"], m["dtype"], m["rootkind"]) + \
                " || ".join("after step %d (%s): %s" % p for p in problems[:4])
     return {"init": init, "trace": trace, "fail": fail, "fail_op": fail_op, "intact": intact, "names": names,
-            "complete": len(trace) == len(m["ops"]), "aliasing": aliasing}
+            "complete": len(trace) == len(m["ops"]), "aliasing": aliasing, "bcast": bcast}
 
 
 # ---- Coq encoders ------------------------------------------------------------------------------------------
@@ -624,7 +774,9 @@ def c_op(op, geq=True):
         pf = Fraction(op[2])
         return "(%s %s %s %d%%positive)" % ("OCi" if nm == "ci" else "OCiWidth", i, cz(pf.numerator), pf.denominator)
     if nm == "rhat":
-        return "(ORhat %s %s %s)" % (i, cnat(op[2]), cbool(geq))
+        return "(ORhat %s %s %s %s)" % (i, clist([cnat(j) for j in op[2]]), cbool(geq), {None: "RRank", "split": "RSplit", "identity": "RIdentity"}[op[3]])
+    if nm == "arviz":
+        return "(OArviz %s %s %s)" % (i, copt(op[2], lambda l: clist([cnat(k) for k in l])), cbool(op[3] is not None))
     if nm == "burnthin":
         return "(OBurnthin %s %s %s)" % (i, cnat(op[2]), cnat(op[3]))
     return "(%s %s)" % ({"mean": "OMean", "median": "OMedian", "variance": "OVar", "std": "OStd", "arviz": "OArviz", "ess": "OEss",
@@ -639,8 +791,9 @@ def c_oval(v):
         return "(VCi %s %s)" % (cqvec(p[0]), cqvec(p[1]))
     if k == "dict":
         return "(VDict %s)" % clist(["(%s, %s)" % (cstr(a), czvec(c)) for a, c in p])
-    if k == "dict2":
-        return "(VDict2 %s)" % clist(["(%s, %s)" % (cstr(a), cchain(c)) for a, c in p])
+    if k == "rhat":
+        return "(VRhat %s %s)" % (clist(["(%s, %s)" % (cstr(a), cchain(c)) for a, c in p[0]]),
+                                  copt(p[1], lambda l: clist([copt(t, cq) for t in l])))
     if k == "obj":
         return "(VObj %s)" % c_hobj(p)
     if k == "objs":
@@ -650,14 +803,15 @@ def c_oval(v):
 
 def history_case(cuqi, m):
     res = run_history(cuqi, m)
-    g = "(mkG %s %s %s %s)" % (clist([cstr(n) for n in res["names"]]), cz(m["a"]), cz(m["b"]), cbool(m["geom"] in ("image2d", "mapped2d")))
+    g = "(mkG %s %s %s %s %s %s)" % (clist([cstr(n) for n in res["names"]]), cz(m["a"]), cz(m["b"]), cbool(m["geom"] in TWO_D),
+                                     cbool(m["geom"] == "cont2d"), cbool(res["bcast"]))
     expr = "check_history %s %s %s %s %s" % (
         g, clist([c_hobj(d) for d in res["init"]]), clist([c_op(t["op"], t["geq"]) for t in res["trace"]]),
         clist(["(%s, %s)" % (c_oval(t["value"]), clist([c_hobj(d) for d in t["state"]])) for t in res["trace"]]),
         cbool(res["intact"] and res["complete"]))
     cell = "history/%s/%s/%s/%s%s" % (m["geom"], m["layout"], m["dtype"], m["rootkind"], "/long" if m.get("long") else "")
     return Case(expr=expr, meta=m, cell=cell, impl_fail=res["fail"],
-                signature=(res["fail_op"] if res["fail_op"] == RHAT_SIG else "Samples.history/" + str(res["fail_op"])) if res["fail"] else ""), res
+                signature=(res["fail_op"] if res["fail_op"] in KNOWN_SIGS else "Samples.history/" + str(res["fail_op"])) if res["fail"] else ""), res
 
 
 def run(ctx):
@@ -873,6 +1027,82 @@ def run(ctx):
         cases.append(Case(expr=expr, meta={"op": "arviz", "dim": dim, "geom": kind, "indices": sel if vi is not None else None,
                                           "array": arr.tolist()}, cell="arviz/" + kind, impl_fail=fail,
                           signature="Samples.arviz" if fail else ""))
+    # ---- 1b. burnthin with integers outside the documented domain (negative Nb: counts from the end; negative Nt: backwards) ----
+    for Ns in range(1, ctx.n(6, 9) + 1):
+        for shp in [(2,), (2, 2)]:
+            if len(shp) > 1 and Ns % 2 == 0:
+                continue
+            arr = np.array(rng.sample(range(-99, 100), int(np.prod(shp)) * Ns)).reshape(shp + (Ns,))
+            is_vec = len(shp) == 1
+            ch = flat_samples(arr)
+            for nb in range(-Ns - 2, Ns + 2):
+                for nt in range(-3, 4):
+                    if nb >= 0 and nt > 0:
+                        continue                          # the documented domain: section 1
+                    S = Samples(arr.copy(), is_par=is_vec, is_vec=is_vec)
+                    before = S.samples.copy()
+                    try:
+                        R = S.burnthin(nb, nt)
+                        obs = flat_samples(R.samples)
+                        flags = (R.is_par == is_vec and R.is_vec == is_vec and (R._geometry is S._geometry) and R.samples.shape[:-1] == S.samples.shape[:-1])
+                    except (ValueError, ZeroDivisionError):
+                        obs, flags = None, True
+                    unchanged = bool(np.array_equal(S.samples, before))
+                    # oracle: Python's own slice semantics on the list of samples
+                    exp = None if (nb >= Ns or nt == 0) else ch[nb::nt]
+                    fail = None
+                    if exp != obs or not flags or not unchanged:
+                        fail = "burnthin(%d,%d) on Ns=%d: list[Nb::Nt] gives %s, observed %s flags_kept=%s source_unchanged=%s" % (nb, nt, Ns, exp, obs, flags, unchanged)
+                    expr = "check_burnthin_z %s %s %s %s %s %s" % (cz(nb), cz(nt), cchain(ch), copt(obs, cchain), cbool(flags), cbool(unchanged))
+                    cases.append(Case(expr=expr, meta={"op": "burnthin_z", "shape": list(shp), "Ns": Ns, "Nb": nb, "Nt": nt, "array": arr.tolist()},
+                                      cell="burnthin/outside-domain/%s" % ("Nb<0" if nb < 0 and nt > 0 else ("Nt<0" if nt < 0 else "Nt=0")),
+                                      kind="EXACT", impl_fail=fail, signature="Samples.burnthin" if fail else ""))
+
+    # ---- 9. chains with thousands of draws: the chain is a formula evaluated on both sides, results compared through an
+    #         order-sensitive hash (burnthin) and exactly / to 1e-9 (statistics, incl. the order statistics) ----------------
+    for it in range(ctx.n(6, 24)):
+        Ns = [1000, 2048, 3001, 4096, 1500, 5000][it % 6] if not ctx.thorough else rng.choice([1000, 1024, 2047, 3001, 4096, 5000, 7777])
+        dim = 1 + it % 2
+        seeds = [rng.randint(1, 10**6) for _ in range(dim)]
+        rows = [big_chain(sd, Ns) for sd in seeds]
+        arr = np.array(rows, dtype=[np.int64, np.float64][it % 2])
+        S = Samples(arr if it % 3 else np.asfortranarray(arr))
+        snap = S.samples.tobytes()
+        nb = rng.choice([0, 1, Ns // 2, Ns - 1, rng.randint(0, Ns - 1)])
+        nt = rng.choice([1, 2, 3, 7, Ns - 1, Ns, Ns + 5, rng.randint(1, 50)])
+        R = S.burnthin(nb, nt)
+        med1 = S.median()
+        obs_len = int(R.samples.shape[-1])
+        obs_hash = [zhash([int(v) for v in R.samples[k]]) for k in range(dim)]
+        mean, var, med, std = S.mean(), S.variance(), S.median(), S.std()
+        p = H_PERCENTS[it % len(H_PERCENTS)]
+        lo_c, hi_c = S.compute_ci(p)
+        R2 = S.burnthin(nb, nt)
+        fl = lambda a: [frac(v) for v in np.asarray(a, dtype=float).ravel()]
+        intact = S.samples.tobytes() == snap and np.array_equal(R.samples, R2.samples) and np.array_equal(med1, med)
+        pf = Fraction(p)
+        fail = None
+        exp_rows = [r[nb::nt] for r in rows]
+        o = o_stats([[r[j] for r in rows] for j in range(Ns)], dim)
+        elo = [o_percentile(r, (100 - pf) / 2) for r in rows]
+        ehi = [o_percentile(r, 100 - (100 - pf) / 2) for r in rows]
+        if not intact:
+            fail = "stored chain (Ns=%d) changed by burnthin/statistics, or burnthin/median not repeatable" % Ns
+        elif obs_len != len(exp_rows[0]) or obs_hash != [zhash(r) for r in exp_rows]:
+            fail = "burnthin(%d,%d) on Ns=%d: %d draws kept (expected %d) / hash differs" % (nb, nt, Ns, obs_len, len(exp_rows[0]))
+        else:
+            for nm, got, ex in (("mean", fl(mean), o["mean"]), ("variance", fl(var), o["var"]), ("median", fl(med), o["median"]),
+                                ("std^2", [v * v for v in fl(std)], o["var"]), ("ci lower", fl(lo_c), elo), ("ci upper", fl(hi_c), ehi)):
+                if len(got) != len(ex) or not all(close(g_, e) for g_, e in zip(got, ex)):
+                    fail = "Ns=%d %s: observed %s expected %s" % (Ns, nm, [float(g_) for g_ in got], [float(e) for e in ex])
+                    break
+        expr = "check_big %s %s %s %s %s %s %s %s %s %s %s %d%%positive %s %s %s" % (
+            clist([cz(sd) for sd in seeds]), cnat(Ns), cnat(nb), cnat(nt), cnat(obs_len), clist([cz(hh) for hh in obs_hash]),
+            cqvec(fl(mean)), cqvec(fl(var)), cqvec(fl(med)), cqvec([v * v for v in fl(std)]), cz(pf.numerator), pf.denominator,
+            cqvec(fl(lo_c)), cqvec(fl(hi_c)), cbool(intact))
+        cases.append(Case(expr=expr, meta={"op": "big", "seeds": seeds, "Ns": Ns, "Nb": nb, "Nt": nt, "percent": p, "dtype": str(arr.dtype)},
+                          cell="big/Ns>=1000", impl_fail=fail, signature="Samples.big" if fail else ""))
+
     # ---- 7. histories: operation sequences on live objects that share storage ---------------------------------
     alias = {}
     nh = ctx.n(300, 1500)
@@ -920,6 +1150,26 @@ def known_witnesses(ctx):
     finally:
         logging.disable(logging.NOTSET)
     out[RHAT_SIG] = (fails, detail)
+    # a chain with one draw is broadcast
+    seen = {}
+    import arviz
+    real = arviz.rhat
+    def fake(dd, **kw):
+        seen["d"] = {str(k): np.asarray(v).tolist() for k, v in dd.items()}
+        return real(dd, **kw)
+    arviz.rhat = fake
+    logging.disable(logging.WARNING)
+    try:
+        with warnings.catch_warnings():
+            warnings.simplefilter("ignore")
+            try:
+                r = Samples(np.array([[1., 5, 2, 8, 3, 9]])).compute_rhat(Samples(np.array([[4.]])))
+                out[RHAT_LEN_SIG] = (True, "Samples([[1,5,2,8,3,9]]).compute_rhat(Samples([[4]])) returns %r; arviz.rhat was handed %r" % (r, seen.get("d")))
+            except (ValueError, TypeError) as e:
+                out[RHAT_LEN_SIG] = (False, "refused: %r" % (e,))
+    finally:
+        arviz.rhat = real
+        logging.disable(logging.NOTSET)
     return out
 
 
@@ -934,7 +1184,7 @@ def oracle(ctx, meta):
 def classify(meta, detail):
     if meta.get("op") == "history":
         return "Samples.history"
-    return {"burnthin": "Samples.burnthin", "burnthin_seq": "Samples.burnthin", "joint_burnthin": "JointSamples.burnthin",
+    return {"burnthin": "Samples.burnthin", "burnthin_z": "Samples.burnthin", "big": "Samples.big", "burnthin_seq": "Samples.burnthin", "joint_burnthin": "JointSamples.burnthin",
             "stats": "Samples.stats", "ci": "Samples.compute_ci", "funvals_stats": "Samples.funvals.stats", "arviz": "Samples.arviz"}.get(meta.get("op"), "C19")
 
 
@@ -945,11 +1195,12 @@ def replay(ctx, meta):
     from cuqi.samples import Samples
     if m.get("op") == "history":
         res = run_history(cuqi, m)
-        show = lambda v: [float(t) for t in v[1]] if v[0] == "stat" else ([[float(t) for t in r] for r in v[1]] if v[0] == "ci" else v[1])
+        show = lambda v: [float(t) for t in v[1]] if v[0] == "stat" else ([[float(t) for t in r] for r in v[1]] if v[0] == "ci" else
+                          ((v[1][0], None if v[1][1] is None else [None if t is None else float(t) for t in v[1][1]]) if v[0] == "rhat" else v[1]))
         print("roots (%s, %s, %s): %s" % (m["layout"], m["dtype"], m["rootkind"], [d["chain"] for d in res["init"]]))
         prev = [d["chain"] for d in res["init"]]
         for k, t in enumerate(res["trace"]):
-            print("step %d  %s -> %s %s" % (k, t["op"], t["value"][0], show(t["value"]) if t["value"][0] in ("stat", "ci", "dict", "dict2") else ""))
+            print("step %d  %s -> %s %s" % (k, t["op"], t["value"][0], show(t["value"]) if t["value"][0] in ("stat", "ci", "dict", "rhat") else ""))
             now = [d["chain"] for d in t["state"]]
             for j in range(len(prev)):
                 if now[j] != prev[j]:
